@@ -63,11 +63,27 @@ Proof. unfold pt_eq, pt_red. cbn [fst snd]. split; apply Qred_correct. Qed.
 Lemma cross_pt_eq a b p a' b' p' : pt_eq a a' -> pt_eq b b' -> pt_eq p p' -> cross a b p == cross a' b' p'.
 Proof. intros [A1 A2] [B1 B2] [P1 P2]. unfold cross. rewrite A1, A2, B1, B2, P1, P2. reflexivity. Qed.
 
+Lemma box_red_valid b : box_valid b -> box_valid (box_red b).
+Proof.
+  unfold box_valid, box_pos, box_unit, box_red. cbn [bw bl bh bc bs]. rewrite !Qred_correct. tauto.
+Qed.
+Lemma box_red_area b : area_rect (box_red b) == area_rect b.
+Proof. unfold area_rect, box_red. cbn [bw bl]. rewrite !Qred_correct. reflexivity. Qed.
+Lemma box_red_volume b : volume (box_red b) == volume b.
+Proof. unfold volume, area_rect, box_red. cbn [bw bl bh]. rewrite !Qred_correct. reflexivity. Qed.
+Lemma box_red_height e g : height_intersection (box_red e) (box_red g) == height_intersection e g.
+Proof.
+  unfold height_intersection, box_red, qmax, qmin. cbn [bz bh]. halves.
+  pose proof (Qred_correct (bz e)). pose proof (Qred_correct (bz g)).
+  pose proof (Qred_correct (bh e)). pose proof (Qred_correct (bh g)).
+  q_cases; lra.
+Qed.
+
 Lemma rcorners_convex_ccw b :
   box_valid b ->
   forall ab, In ab (edges (rcorners b)) -> forall p, In p (rcorners b) -> inside (fst ab) (snd ab) p = true.
 Proof.
-  intros V ab Hab p Hp. pose proof (corners_convex_ccw b V) as H.
+  intros V ab Hab p Hp. pose proof (corners_convex_ccw (box_red b) (box_red_valid b V)) as H.
   unfold rcorners in *. rewrite corners4 in *. unfold edges in *. cbn [map combine app] in *.
   unfold inside in *. apply Qleb_true.
   destruct Hab as [<-|[<-|[<-|[<-|[]]]]]; destruct Hp as [<-|[<-|[<-|[<-|[]]]]]; cbn [fst snd];
@@ -77,7 +93,10 @@ Qed.
 
 Lemma poly_area_rcorners b : box_unit b -> poly_area (rcorners b) == area_rect b.
 Proof.
-  intros U. rewrite <- (poly_area_corners b U). unfold rcorners. rewrite corners4.
+  intros U. rewrite <- box_red_area.
+  assert (U' : box_unit (box_red b)).
+  { unfold box_unit, box_red in *. cbn [bc bs]. rewrite !Qred_correct. exact U. }
+  rewrite <- (poly_area_corners (box_red b) U'). unfold rcorners. rewrite corners4.
   unfold poly_area, shoelace2, shoelace_aux, cross0, pt_red. cbn [map fst snd].
   rewrite !Qred_correct. reflexivity.
 Qed.
@@ -87,7 +106,7 @@ Qed.
 Lemma clip_self b : box_valid b -> clip (rcorners b) (rcorners b) = rcorners b.
 Proof.
   intros V. pose proof (rcorners_convex_ccw b V) as H.
-  unfold clip. unfold rcorners in *. rewrite (corners4 b) in *. unfold edges in H. cbn [map combine app] in H.
+  unfold clip. unfold rcorners in *. rewrite (corners4 (box_red b)) in *. unfold edges in H. cbn [map combine app] in H.
   cbn [map clip_edges].
   do 4 (match goal with
         | |- context [clip_edge ?a ?c [?p0; ?p1; ?p2; ?p3]] =>
@@ -121,8 +140,10 @@ Qed.
 (* the evaluator's plane distance (reduced corners) is the model's *)
 Lemma rcorners_img b : Forall2 (img (fun p => p)) (corners b) (rcorners b).
 Proof.
-  unfold rcorners. induction (corners b) as [|p t IH]; cbn [map]; constructor; [|exact IH].
-  unfold img. apply pt_red_eq.
+  unfold rcorners. rewrite !corners4. cbn [map].
+  unfold img, pt_eq, pt_red, place, add_pt, rot, centre2, box_red. cbn [fst snd bx by_ bc bs bw bl].
+  repeat (apply Forall2_cons; [cbn [fst snd]; split; rewrite !Qred_correct; reflexivity|]).
+  apply Forall2_nil.
 Qed.
 
 Lemma plane_sq_fast_correct e g : oQeq (plane_sq_fast e g) (plane_sq_box e g).
